@@ -251,3 +251,16 @@ PROPS["C06"] = {
     "theorem_status": {"C06_one_field_per_json_name": "proved", "C06_each_key_once": "proved", "C06_typename_present_once": "proved",
                        "C06_witness_roundtrip": "proved (non-vacuity)", "C06_null_list_roundtrip_refuted": "refuted part of the statement (witness by vm_compute; known finding)"},
 }
+
+PROPS["C04"] = {
+    "coq": ["Properties/C04.v", "Corr/Rtcorr.v"],
+    "trusted": RT_TRUSTED + ["gqlparser's validator.VariableValues is the oracle for 'coerces to the declared types'; the oracle's expectation for the variables JSON (harness/props/rt/c04.go) is a transcription of the documentation that reads the omitempty MARKING from the emitted struct tags (which options are in force is C10's subject)",
+                             "argument values are drawn by reflection over the generated parameter types; calls whose arguments are not valid values (nil at a non-null position, a string that is no enum value, an empty value omitted for a required variable) are judged for faithfulness only"],
+    "assumptions": ["'exactly one request' is a template fact (tripwire theorem) plus the recording client of every run, not a theorem about Go control flow"],
+    "level_text": "Theorems over EVERY typemap and value: the variables object has keys only for the fields of the hidden input struct, each at most once; an ordinary variable or input field is absent exactly when it is marked omitempty and its Go value is empty in the encoding/json sense (characterised case by case), nothing else is omitted; nil pointers and nil slices are sent as null; the custom-marshaler exception (never omitted unless a nil pointer); the per-depth loops hand every element at every depth to the marshaler. Tied to marshal.go.tmpl / operation.go.tmpl / convert.go by calling every generated helper of random programs with random arguments against a recording client and comparing the recorded variables with Rt/JsonEncode.v in-kernel, plus the documentation oracle, gqlparser's coercion and call counts of the user marshalers.",
+    "level_note": "partial: request count / operation name / document and coercibility are oracle-decided per run; one open finding (nil slice of custom-marshaled elements sent as []).",
+    "theorem_status": {"C04_keys_only_for_declared_variables": "proved", "C04_omitted_exactly_when_marked_and_empty": "proved",
+                       "C04_empty_is_the_encoding_json_notion": "proved", "C04_nil_is_null": "proved", "C04_custom_marshaler_exception": "proved",
+                       "C04_marshaler_reaches_every_element": "proved", "C04_template_makes_one_request": "proved (translator fact)",
+                       "C04_nil_slice_of_custom_marshaled_refuted": "refuted part of the statement (known finding)"},
+}
